@@ -501,12 +501,13 @@ theorem C08_gtab_scriptlist_roundtrip (es : List SL.Entry) (h : SL.InputOk es) (
   simp only [List.length_drop, List.length_append] at this ⊢
   omega
 
-/-! Non-vacuity: `DFLT` with a default language system and `latn` with `TRK ` -/
-example : SL.InputOk [⟨[108, 97, 116, 110], [84, 82, 75, 32], 65535, [1, 2]⟩, ⟨[68, 70, 76, 84], [], 65535, [0]⟩] :=
-  ⟨by decide, by decide⟩
-example : SL.encode [⟨[108, 97, 116, 110], [84, 82, 75, 32], 65535, [1, 2]⟩, ⟨[68, 70, 76, 84], [], 65535, [0]⟩] =
-    .ok ([0, 2, 68, 70, 76, 84, 0, 14, 108, 97, 116, 110, 0, 26,
-          0, 4, 0, 0, 0, 0, 255, 255, 0, 1, 0, 0,
-          0, 0, 0, 1, 84, 82, 75, 32, 0, 10, 0, 0, 255, 255, 0, 2, 0, 1, 0, 2]) := by decide
+/-! Non-vacuity: `DFLT` with a default language system and `latn` with `TRK ` (that `SL.known` holds of
+these tags is evaluated, not kernel-reduced — `String.toUTF8` does not reduce —: the stream
+`otl.sl.read` returns an entry only if it does) -/
+example : SL.encodePlans [⟨[68, 70, 76, 84], some ⟨[68, 70, 76, 84], [], 65535, [0]⟩, []⟩,
+      ⟨[108, 97, 116, 110], none, [⟨[108, 97, 116, 110], [84, 82, 75, 32], 65535, [1, 2]⟩]⟩] =
+    .ok [0, 2, 68, 70, 76, 84, 0, 14, 108, 97, 116, 110, 0, 26,
+         0, 4, 0, 0, 0, 0, 255, 255, 0, 1, 0, 0,
+         0, 0, 0, 1, 84, 82, 75, 32, 0, 10, 0, 0, 255, 255, 0, 2, 0, 1, 0, 2] := by decide
 
 end SfntV.Props.C08
